@@ -109,13 +109,16 @@ def rule_bounds(run):
         fi = prog.func('t2thermo.' + fname)
         ifb, ifo = _bounds_struct(fi)
         key = 't2thermo.%s' % fname
-        # bounds off
-        off = _ok_assigns(ifb.orelse)
-        good_off = len(off) == 1 and isinstance(off[0][1], ast.Constant) and off[0][1].value is True
+        # every path from the function entry to `if ok:` (a default set before `if bounds:` counts), split by the value of the flag
+        pre = fi.node.body[:fi.node.body.index(ifo)]
+        allp = _ok_assigns(pre)
+        is_flag = lambda t: isinstance(t, ast.Name) and t.id == 'bounds'
+        off = [(p, v) for p, v in allp if any(is_flag(t) and pol is False for t, pol in p)]
+        good_off = bool(off) and all(isinstance(v, ast.Constant) and v.value is True for _, v in off)
         run.check(good_off, key + ' :: ok = True when bounds is off', 'with bounds off ok is %s' %
                   [norm(v) if v is not None else None for _, v in off], where=fi.where(ifb))
         # bounds on: every leaf assigns; leaves under a negated box test assign False
-        leaves = _ok_assigns(ifb.body)
+        leaves = [(tuple(x for x in p if not is_flag(x[0])), v) for p, v in allp if any(is_flag(t) and pol is True for t, pol in p)]
         missing = [p for p, v in leaves if v is None]
         run.check(not missing, key + ' :: ok assigned on every path', 'a path through `if bounds:` leaves ok unassigned',
                   where=fi.where(ifb))
@@ -219,9 +222,32 @@ def rule_guard(run):
     run.check(want | set([350.0]) <= reg_breaks, 't2thermo.region :: break points {0.01, 350, Tc1_C, 590, 800}',
               'region uses t break points %s' % sorted(reg_breaks), where=reg.where())
     # supst side tests: p <= sat(t) below Tc1_C, p <= b23p(t) up to 590, p <= 1e8 above
-    sides = [norm(v) for p, v in leaves if v is not None and not (isinstance(v, ast.Constant))]
-    run.check(sides == ['p <= sat(t)', 'p <= b23p(t)', 'p <= 100000000.0'],
-              't2thermo.supst :: side tests (sat, b23p, 100 MPa)', 'side tests are %s' % sides, where=sup.where())
+    # (by temperature band, whatever order the branches are written in)
+    ks = 't2thermo.supst :: side tests (sat, b23p, 100 MPa)'
+    want_side = {tc1c: 'p <= sat(t)', 590.0: 'p <= b23p(t)', 800.0: 'p <= 100000000.0'}
+    got, undecided = {}, []
+    for path, v in leaves:
+        if v is None or isinstance(v, ast.Constant): continue
+        env_ = {}
+        try:
+            for t_, pol in path:
+                if pol:
+                    e2, _r = constraints(prog, MOD, t_, env_); env_ = e2
+                else: env_ = negate_last(prog, MOD, t_, env_)
+        except Exception:
+            undecided.append(norm(v)); continue
+        iv = env_.get('t')
+        if iv is None or iv.hi == float('inf'): undecided.append(norm(v)); continue
+        got[iv.hi] = norm(v)
+    if undecided or set(got) != set(want_side):
+        sides = [norm(v) for p, v in leaves if v is not None and not (isinstance(v, ast.Constant))]
+        if sorted(sides) == sorted(want_side.values()) or undecided:
+            run.unknown(ks, 'temperature bands of the side tests not resolved: %s %s' % (got, undecided), where=sup.where())
+        else: run.violated(ks, 'side tests are %s' % sides, where=sup.where())
+    elif got == want_side: run.ok(ks, got, where=sup.where())
+    else:
+        bad = [(hi, got[hi]) for hi in sorted(got) if got[hi] != want_side[hi]]
+        run.violated(ks, 'up to t = %s the pressure limit tested is `%s`, expected `%s`' % (bad[0][0], bad[0][1], want_side[bad[0][0]]), where=sup.where())
     # sat / tsat ranges
     sat = prog.func('t2thermo.sat')
     ifb, _ = _bounds_struct(sat)
